@@ -40,5 +40,13 @@ Pts_audit ==
     \cup WithAtol(InvPts({10, 30, 50, 70}, {27315, 29300, 32315}), {R(1, 1000000), R(1, 10000), R(1, 10)})
     \cup Explicit(InvPts({10, 30, 50}, {29815, 29300}))
     \cup WithOpts(InvPts({10, 30, 50}, {29300, 33000, 27000, 32316}), "on", "default") \cup InvPts({30, 50}, {29815, 33000, 27000})
-Pts_tt == Pts_t \cup Pts_audit
+Pts_falsy ==
+    WithTz(P1("water_density", Grid(0, 4000, 100) \cup {398, 4001, -1, -1000, 6000}), QZero)
+    \cup WithTz(P1("water_density", Grid(100, 4100, 500)), R(1, 1))
+    \cup WithTz(AcidPts({10, 50, 90, 0}, Grid(0, 5000, 1000) \cup {1985, 5001, -1}), QZero)
+    \cup PermPts(Grid(27315, 62315, 5000), {0}) \cup AcidPts({0}, TA_t)
+    \cup SchumpePts(1..8, { <<R(0, 1), R(1, 2)>>, <<R(1, 2), R(0, 1)>>, <<R(0, 1), R(0, 1)>> })
+    \cup HenryPts({"henry_c"}, 1..5, {29000, 31000}, {QZero})
+    \cup MobPts({27315, 30000}, {0, -1, 2}, {QZero, R(3, 1000000000)})
+Pts_tt == Pts_t \cup Pts_audit \cup Pts_falsy
 =============================================================================
